@@ -48,6 +48,8 @@ Next == /\ l <= Len(Trace) /\ l' = l + 1
         /\ LET e == Trace[l] IN
            IF e.k = "qt" /\ e.op = "reset" THEN st' = {} /\ bad' = bad
            ELSE IF e.k = "gate" THEN st' = st /\ bad' = (IF GateOk(e) THEN bad ELSE bad \cup {l})
+           \* sizes: a tree of thousands of pointers through fill / thin / refill, every query compared with a plain scan
+           ELSE IF e.k = "big" THEN st' = st /\ bad' = (IF e.ok = 1 THEN bad ELSE bad \cup {l})
            ELSE IF e.k # "qt" THEN st' = st /\ bad' = bad \cup {l}
            ELSE LET S2 == ToSet(e.items) IN
                 /\ st' = S2
